@@ -372,7 +372,10 @@ read_file(econf_file *ef, const char *file,
     while (*name && isspace((unsigned)*name))
       name++;
 
-    if (*name && strchr(comment, *name) != NULL) {
+    if (!*name)
+      continue; /* line consists of spaces only */
+
+    if (strchr(comment, *name) != NULL) {
       /* The line starts with a comment character. So the whole line is a
 	 comment which is defined in the line before the key/value line,
 	 regardless of which characters follow. */
